@@ -2,6 +2,7 @@ package functions
 
 import (
 	"fmt"
+	"math"
 
 	"diagonal.works/b6"
 	"diagonal.works/b6/api"
@@ -148,6 +149,12 @@ func rectanglePolygon(context *api.Context, a b6.Geometry, b b6.Geometry) (b6.Ar
 
 // Return a polygon approximating a spherical cap with the given center and radius in meters.
 func capPolygon(context *api.Context, center b6.Geometry, radius float64) (b6.Area, error) {
+	if err := requireGeometry("cap-polygon", center); err != nil {
+		return nil, err
+	}
+	if p := center.Point(); math.IsNaN(radius) || math.IsNaN(p.X) || math.IsNaN(p.Y) || math.IsNaN(p.Z) {
+		return nil, fmt.Errorf("cap-polygon: center or radius is NaN")
+	}
 	return b6.AreaFromS2Loop(s2.RegularLoop(center.Point(), b6.MetersToAngle(radius), 128)), nil
 }
 
